@@ -318,7 +318,7 @@ func matchList(name, delim, pattern string) bool {
 	// Expand wildcard
 	var j int
 	for j = 0; j < len(name); j++ {
-		if wildcard == '%' && string(name[j]) == delim {
+		if wildcard == '%' && delim != "" && strings.HasPrefix(name[j:], delim) {
 			break // Stop on delimiter if wildcard is %
 		}
 		// Try to match the rest from here
